@@ -46,7 +46,10 @@ type c16Conn struct {
 	Next string `json:"then,omitempty"`
 	// takeover only: where the superseded connection's end is placed relative to the steps of
 	// the connection that took over: 1 after its CONNACK, 2 after its SUBSCRIBE, 3 after its
-	// first judgement (it is judged again afterwards), 4 never (until the history has been judged)
+	// first judgement (it is judged again afterwards), 4 never (until the history has been judged),
+	// 5 only after the successor's own end (right after the successor's teardown has completed,
+	// before the next CONNECT), 6 after the successor's end AND after the next connection has
+	// been established (that one is judged again afterwards)
 	Point int `json:"superseded_teardown_point,omitempty"`
 	// takeover only: "disconnect" (late DISCONNECT packet) or "drop" (device vanished, FIN later)
 	End string `json:"superseded_ends_by,omitempty"`
@@ -118,8 +121,10 @@ func c16scenarios() []c16Scn {
 	return out
 }
 
-// c16chains: every history of three connections {cleanSession}^3 x {disconnect, drop, takeover}^2.
-// Teardown points of superseded connections and an optional fourth connection are drawn per case.
+// c16chains: every history of three connections {cleanSession}^3 x {disconnect, drop, takeover}^2;
+// where the first connection is taken over, additionally with its teardown placed after the end
+// of its successor (points 5 and 6).  The other teardown points of superseded connections and
+// an optional fourth connection are drawn per case.
 func c16chains() []c16Scn {
 	var out []c16Scn
 	bools := []bool{false, true}
@@ -130,6 +135,12 @@ func c16chains() []c16Scn {
 				for _, t01 := range nexts {
 					for _, t12 := range nexts {
 						out = append(out, c16Scn{Kind: "chain", Chain: []c16Conn{{Clean: c0, Next: t01}, {Clean: c1, Next: t12}, {Clean: c2}}})
+						if t01 == "takeover" {
+							// the late teardown points of the first connection, enumerated (not drawn)
+							for _, pt := range []int{5, 6} {
+								out = append(out, c16Scn{Kind: "chain", Chain: []c16Conn{{Clean: c0, Next: t01, Point: pt}, {Clean: c1, Next: t12}, {Clean: c2}}})
+							}
+						}
 					}
 				}
 			}
@@ -147,14 +158,22 @@ func c16chainDraw(rng *rand.Rand, s c16Scn, extend bool) c16Scn {
 		ch = append(ch[:at], append([]c16Conn{extra}, ch[at:]...)...)
 	}
 	for k := range ch {
-		ch[k].Point, ch[k].End = 0, ""
+		ch[k].End = ""
+		if ch[k].Point < 5 || ch[k].Next != "takeover" || k+2 >= len(ch) {
+			ch[k].Point = 0
+		}
 		if k == len(ch)-1 {
 			ch[k].Next = ""
 		} else if ch[k].Next == "" {
 			ch[k].Next = []string{"disconnect", "drop", "takeover"}[rng.Intn(3)]
 		}
 		if ch[k].Next == "takeover" {
-			ch[k].Point = 1 + rng.Intn(4)
+			if ch[k].Point == 0 {
+				ch[k].Point = 1 + rng.Intn(4)
+				if extend && k+2 < len(ch) {
+					ch[k].Point = 1 + rng.Intn(6)
+				}
+			}
 			ch[k].End = []string{"disconnect", "drop"}[rng.Intn(2)]
 		}
 	}
@@ -186,8 +205,8 @@ func TestVerif_C16_Sessions(t *testing.T) {
 	scns := c16scenarios()
 	nPair := len(scns)
 	scns = append(scns, c16chains()...)
-	r.Rule(fmt.Sprintf("%d scripted schedules for one client id. (a) %d two-connection schedules: {cleanSession old} x {cleanSession new} x {new filter = old filter or not} x {plain reconnect after DISCONNECT / after a silent drop; takeover with the old connection's end (FIN through the relay, or DISCONNECT packet) placed after the new CONNACK / after the new SUBSCRIBE / after the first delivery / never; takeover with the old connection ended by the broker's keep-alive deadline; admin delete; session-delete watch event delayed past the reconnect}, a random QoS for the probe on the old filter; after the old teardown has completed a fresh message per filter is published. (b) %d longer session histories (chains): every sequence of three connections {cleanSession}^3 x {ends by DISCONNECT, ends by silent drop, is taken over while open}^2, each connection subscribing a filter of its own; the end of a superseded connection is placed at a drawn point (after the successor's CONNACK / SUBSCRIBE / first judgement / never) and always before the successor itself ends; in the repeats a fourth connection with drawn parameters is inserted at a drawn position in half of the cases; EVERY connection of a chain is judged (books + one fresh message per filter of the history, PINGRESP barrier) against a model of the property sentence: cleanSession=true discards everything earlier, cleanSession=false keeps what the previous session held and what the connection subscribed itself, filters held by a cleanSession=true predecessor of a cleanSession=false connection are left open. All repeated (quick 3x, thorough 200x) with seeded jitter between the steps; distinct = (schedule, symptoms)", len(scns), nPair, len(scns)-nPair))
-	r.Assume("one client id, keepalive 0 except in the keep-alive schedules, no will; delete-watch events are delivered promptly (right after the teardown that caused them, before the next step) except in the stale-delete-event schedules; old cleanSession=true followed by new cleanSession=false: whether the old subscription comes back is left open (counted, not judged); new cleanSession=true while the superseded connection has not been torn down yet: delivery on the old filter is counted, not judged; chains: a connection ends only after every Session.store() hand-over has finished, a superseded connection is torn down before its successor ends or not at all until the history has been judged; a discarded filter must stay silent only once every earlier connection has been torn down")
+	r.Rule(fmt.Sprintf("%d scripted schedules for one client id. (a) %d two-connection schedules: {cleanSession old} x {cleanSession new} x {new filter = old filter or not} x {plain reconnect after DISCONNECT / after a silent drop; takeover with the old connection's end (FIN through the relay, or DISCONNECT packet) placed after the new CONNACK / after the new SUBSCRIBE / after the first delivery / never; takeover with the old connection ended by the broker's keep-alive deadline; admin delete; session-delete watch event delayed past the reconnect}, a random QoS for the probe on the old filter; after the old teardown has completed a fresh message per filter is published. (b) %d longer session histories (chains): every sequence of three connections {cleanSession}^3 x {ends by DISCONNECT, ends by silent drop, is taken over while open}^2, each connection subscribing a filter of its own; the end of a superseded connection is placed at a drawn point (after the successor's CONNACK / SUBSCRIBE / first judgement / never), and for a taken-over first connection additionally, enumerated, only after the successor's own end (before the next CONNECT) and after the successor's end plus the next connection's SUBSCRIBE; after such a late teardown the stored session of the latest cleanSession=false connection must still hold its subscriptions; in the repeats a fourth connection with drawn parameters is inserted at a drawn position in half of the cases; EVERY connection of a chain is judged (books + one fresh message per filter of the history, PINGRESP barrier) against a model of the property sentence: cleanSession=true discards everything earlier, cleanSession=false keeps what the previous session held and what the connection subscribed itself, filters held by a cleanSession=true predecessor of a cleanSession=false connection are left open. All repeated (quick 3x, thorough 200x) with seeded jitter between the steps; distinct = (schedule, symptoms)", len(scns), nPair, len(scns)-nPair))
+	r.Assume("one client id, keepalive 0 except in the keep-alive schedules, no will; delete-watch events are delivered promptly (right after the teardown that caused them, before the next step) except in the stale-delete-event schedules; old cleanSession=true followed by new cleanSession=false: whether the old subscription comes back is left open (counted, not judged); new cleanSession=true while the superseded connection has not been torn down yet: delivery on the old filter is counted, not judged; chains: a connection ends only after every Session.store() hand-over has finished, a superseded connection whose teardown point is 'never' is torn down only after the history has been judged; a discarded filter must stay silent only once every earlier connection has been torn down")
 	reps := r.N(3, 200)
 	n := len(scns) * reps
 	for i := 0; i < n; i++ {
@@ -224,8 +243,12 @@ func TestVerif_C16_Sessions(t *testing.T) {
 	r.Require("chain_earlier_subscription_restored_at_third_or_later_connection", 1)
 	r.Require("chain_subscription_of_a_connection_that_took_over_restored_after_its_own_end", 1)
 	r.Require("chain_subscription_made_after_a_clean_predecessor_restored_at_next_persistent_reconnect", 1)
+	r.Require("chain_earlier_subscription_restored_in_history_mixing_cleansession_values_and_takeover", 1)
 	r.Require("chain_discarded_filter_silent", 1)
 	r.Require("chain_superseded_teardown_observed_complete", 1)
+	r.Require("chain_superseded_torn_down_after_successors_end", 1)
+	r.Require("chain_superseded_torn_down_after_successors_end_and_next_reconnect", 1)
+	r.Require("chain_stored_session_intact_after_late_superseded_teardown", 1)
 }
 
 func c16run(r *kit.Run, rng *rand.Rand, s c16Scn, first bool) {
@@ -693,6 +716,464 @@ func c16run(r *kit.Run, rng *rand.Rand, s c16Scn, first bool) {
 		}
 	}
 	if first && len(symptoms) == 0 && s.Kind == "takeover" && s.Point == 2 && !s.OldClean && !s.NewClean && !s.SameFilter {
+		r.Sample(map[string]interface{}{"scenario": s, "steps": steps})
+	}
+}
+
+// ---------------------------------------------------------------------------- chains
+//
+// c16runChain executes one longer session history: connections 0..n-1 of one client id with
+// mixed cleanSession values, each subscribing a filter of its own ("s/k<i>/+"), each followed by
+// the next one after a DISCONNECT, after a silent drop, or by takeover while still open.  EVERY
+// connection is judged once it is established (and again after a late teardown of the
+// connection it superseded) against a model written from the property sentence:
+//
+//	state of filter j at connection k:  present (must be delivered and routed)
+//	                                    absent  (must stay silent, once all earlier connections are torn down)
+//	                                    open    (the property does not say; counted)
+//	CONNECT cleanSession=true          : every filter -> absent       ("the previous session is discarded")
+//	CONNECT cleanSession=false         : after a cleanSession=false predecessor nothing changes
+//	                                     ("gets its previous subscriptions back");
+//	                                     after a cleanSession=true predecessor what that one held -> open
+//	SUBSCRIBE by connection k          : filter k -> present
+//
+// A failing judgement ends the history (the model is no longer meaningful afterwards).
+func c16runChain(r *kit.Run, rng *rand.Rand, s c16Scn, first bool) {
+	const cid = "dev"
+	const (
+		absent = iota
+		present
+		open
+	)
+	ch := s.Chain
+	n := len(ch)
+	filt := func(k int) string { return fmt.Sprintf("s/k%d/+", k) }
+	topic := func(k int) string { return fmt.Sprintf("s/k%d/1", k) }
+	rb, err := c15rigNewBroker(c15rigBrokerOpts{})
+	if err != nil {
+		r.Inconclusive("broker did not start: " + err.Error())
+		return
+	}
+	relay, err := c15rigNewRelay(rb.addr)
+	if err != nil {
+		rb.close()
+		r.Inconclusive("relay did not start: " + err.Error())
+		return
+	}
+	conns := make([]*c15rigClient, n)
+	links := make([]*c15rigLink, n)
+	down := make([]bool, n)
+	state := make([]int, n)
+	cur := -1
+	full := func() string {
+		var sb strings.Builder
+		for i := range ch {
+			sb.WriteString(c16cp(ch[i].Clean))
+			if i < n-1 {
+				sb.WriteString("-" + ch[i].Next)
+				if ch[i].Next == "takeover" {
+					sb.WriteString(fmt.Sprintf("(%s@%d)", ch[i].End, ch[i].Point))
+				}
+				sb.WriteString("-")
+			}
+		}
+		return sb.String()
+	}()
+	steps := []string{}
+	step := func(f string, x ...interface{}) { steps = append(steps, fmt.Sprintf(f, x...)) }
+	jit := func() {
+		if s.Jitter {
+			time.Sleep(time.Duration(rng.Intn(4000)) * time.Microsecond)
+		}
+	}
+	inconclusive := false
+	inc := func(why string) {
+		if !inconclusive {
+			r.Inconclusive(why + " in session-chain:" + full)
+		}
+		inconclusive = true
+	}
+	type sympt struct {
+		Family  string                 `json:"family"`
+		Symptom string                 `json:"symptom"`
+		Extra   map[string]interface{} `json:"detail,omitempty"`
+	}
+	var symptoms []sympt
+	bad := func(family, symptom string, extra map[string]interface{}) {
+		symptoms = append(symptoms, sympt{family, symptom, extra})
+	}
+	// emit reports one violation per symptom family seen at the judgement of connection k
+	sigShape := "" // overrides the history shape of the signature when set
+	emit := func(k int, when string) {
+		seen := map[string]bool{}
+		for _, sy := range symptoms {
+			if seen[sy.Family] {
+				continue
+			}
+			seen[sy.Family] = true
+			d := map[string]interface{}{"scenario": s, "history": full, "judged_connection": k, "judged": when, "steps": steps, "symptoms": symptoms}
+			if k >= 0 && conns[k] != nil {
+				d["judged_connection_log"] = conns[k].events()
+			}
+			if strings.HasPrefix(sy.Family, "persisted-") || strings.HasPrefix(sy.Family, "http-publish-") {
+				r.Violation("any-schedule:"+sy.Family, d)
+			} else {
+				shape := c16chainShape(ch, k)
+				if sigShape != "" {
+					shape = sigShape
+				}
+				r.Violation(fmt.Sprintf("session-chain:%s:%s", shape, sy.Family), d)
+			}
+		}
+	}
+	defer func() {
+		syms := []string{}
+		for _, sy := range symptoms {
+			syms = append(syms, sy.Family+"/"+sy.Symptom)
+		}
+		r.Cover(fmt.Sprintf("chain:%s/inconclusive=%v/symptoms=%v", full, inconclusive, syms))
+		if len(symptoms) > 0 {
+			r.Count("schedules_with_symptoms", 1)
+		} else if !inconclusive {
+			r.Count("schedules_clean", 1)
+			r.Count("chain_histories_clean", 1)
+		}
+		for k := 0; k < n; k++ {
+			if conns[k] == nil {
+				continue
+			}
+			if !down[k] && k != cur {
+				links[k].cutBrokerSide()
+				links[k].brokerClosed()
+			}
+		}
+		if cur >= 0 && conns[cur] != nil && !down[cur] {
+			conns[cur].shutdown()
+		}
+		for k := 0; k < n; k++ {
+			if conns[k] != nil {
+				conns[k].close()
+			}
+		}
+		rb.flushDeletes()
+		rb.storesQuiesced()
+		relay.close()
+		rb.close()
+	}()
+	seq := 0
+	inject := func(k int, tp string, qos int) (string, bool) {
+		seq++
+		pl := fmt.Sprintf("c16chain.%d", seq)
+		if code := rb.httpPublish(tp, qos, pl, true); code != 200 {
+			bad(fmt.Sprintf("http-publish-rejected-%d", code), "", nil)
+			emit(k, "publish")
+			return pl, false
+		}
+		if !rb.publishQuiesced() {
+			inc("watchdog: publish goroutine")
+			return pl, false
+		}
+		return pl, true
+	}
+	// teardown ends connection k (how: "disconnect" | "drop") and waits until the broker has
+	// completely torn it down; the delete-watch events it caused are delivered right away.
+	// lateCheck: after a superseded connection has been torn down later than the end of its
+	// successor, the stored session of the latest connection (if that one asked for a persistent
+	// session) must still hold every subscription the model says it has: it is what the next
+	// cleanSession=false reconnect is restored from.
+	lateCheck := func() bool {
+		if cur < 0 || ch[cur].Clean {
+			return true
+		}
+		if !rb.storesQuiesced() {
+			inc("watchdog: session store")
+			return false
+		}
+		tp, ok := rb.persistedTopics(cid)
+		for j := 0; j <= cur; j++ {
+			if state[j] == present && (!ok || tp[filt(j)] != 1) {
+				bad("late-superseded-teardown-removed-successors-stored-session", "stored-copy-lost-a-subscription", map[string]interface{}{"persisted_topics": tp, "persisted_copy_exists": ok, "missing_filter": filt(j), "subscribed_by_connection": j, "latest_connection": cur, "latest_connection_ended": down[cur]})
+				sigShape = c16chainShape(ch, cur)
+				if down[cur] {
+					sigShape += "-" + ch[cur].Next
+				}
+				emit(cur, "stored session after the late teardown of a superseded connection")
+				return false
+			}
+		}
+		r.Count("chain_stored_session_intact_after_late_superseded_teardown", 1)
+		return true
+	}
+	var teardown func(k int, how string, superseded bool) bool
+	teardown = func(k int, how string, superseded bool) bool {
+		jit()
+		switch how {
+		case "disconnect":
+			conns[k].sendDisconnect()
+			step("#%d: DISCONNECT packet reaches the broker", k)
+		case "drop":
+			links[k].cutBrokerSide()
+			step("#%d: broker's read on the connection sees EOF", k)
+		}
+		if !links[k].brokerClosed() {
+			inc("watchdog: connection teardown")
+			return false
+		}
+		down[k] = true
+		r.Count("chain_teardown_observed_complete", 1)
+		if superseded {
+			r.Count("chain_superseded_teardown_observed_complete", 1)
+		}
+		step("#%d: teardown complete (broker closed its side)", k)
+		nd, ok := rb.flushDeletes()
+		if !ok {
+			inc("watchdog: delete-watch flush")
+			return false
+		}
+		if nd > 0 {
+			step("delete-watch: %d event(s) delivered and processed", nd)
+			r.Count("delete_watch_events_delivered_promptly", int64(nd))
+		}
+		jit()
+		// point 5: the connection that THIS one had superseded has been waiting for this end
+		if k > 0 && ch[k-1].Next == "takeover" && ch[k-1].Point == 5 && !down[k-1] {
+			step("#%d: superseded long ago, its end comes only now, after the end of its successor #%d", k-1, k)
+			if !teardown(k-1, ch[k-1].End, true) {
+				return false
+			}
+			r.Count("chain_superseded_torn_down_after_successors_end", 1)
+			if !lateCheck() {
+				return false
+			}
+		}
+		return true
+	}
+	famOf := func(j, k int) string {
+		if j == k {
+			return "own-subscription-lost"
+		}
+		return "previous-subscription-not-restored"
+	}
+	// judge connection k, the current one.  false = the history ends here.
+	judge := func(k int, when string) bool {
+		c, l := conns[k], links[k]
+		r.Eval(1)
+		reg, sess := rb.registered(cid)
+		switch {
+		case reg == nil:
+			bad("current-connection-deregistered-or-disconnected", "not-registered", nil)
+		case reg.conn.RemoteAddr().String() != l.brokerSideLocalAddr():
+			bad("current-connection-deregistered-or-disconnected", "registered-connection-is-not-the-current-one", map[string]interface{}{"registered": reg.conn.RemoteAddr().String(), "current": l.brokerSideLocalAddr()})
+		}
+		if reg != nil {
+			switch inMap := rb.sessionInMap(cid); {
+			case inMap == nil:
+				bad("current-session-removed", "session-missing-from-session-map", nil)
+			case inMap != sess:
+				bad("current-session-removed", "session-map-holds-a-different-session", nil)
+			}
+		}
+		if sess != nil {
+			select {
+			case <-sess.done:
+				bad("current-session-removed", "session-closed", nil)
+			default:
+			}
+		}
+		allEarlierDown := true
+		for i := 0; i < k; i++ {
+			allEarlierDown = allEarlierDown && down[i]
+		}
+		for j := 0; j <= k; j++ {
+			if state[j] == present {
+				if ok, _ := rb.routes(topic(j), cid); !ok {
+					bad(famOf(j, k), "unrouted", map[string]interface{}{"filter": filt(j), "subscribed_by_connection": j})
+				}
+			}
+		}
+		if c.sawEOF() {
+			bad("current-connection-deregistered-or-disconnected", "connection-closed-by-broker", nil)
+		} else {
+			pls := make([]string, k+1)
+			for j := 0; j <= k; j++ {
+				pl, ok := inject(k, topic(j), rng.Intn(2))
+				if !ok {
+					return false
+				}
+				pls[j] = pl
+			}
+			switch st := c.ping(); st {
+			case "ok":
+				for j := 0; j <= k; j++ {
+					cnt, _ := c.copies(pls[j])
+					got := cnt > 0
+					switch {
+					case state[j] == present && !got:
+						bad(famOf(j, k), "delivery-missed", map[string]interface{}{"filter": filt(j), "subscribed_by_connection": j, "payload": pls[j]})
+					case state[j] == present:
+						if j < k {
+							if k >= 2 {
+								r.Count("chain_earlier_subscription_restored_at_third_or_later_connection", 1)
+								mixC, mixP, mixT := false, false, false
+								for i := 0; i <= k; i++ {
+									mixC = mixC || ch[i].Clean
+									mixP = mixP || !ch[i].Clean
+									mixT = mixT || (i < k && ch[i].Next == "takeover")
+								}
+								if mixC && mixP && mixT {
+									r.Count("chain_earlier_subscription_restored_in_history_mixing_cleansession_values_and_takeover", 1)
+								}
+							}
+							if j >= 1 && ch[j-1].Next == "takeover" && down[j] {
+								r.Count("chain_subscription_of_a_connection_that_took_over_restored_after_its_own_end", 1)
+							}
+							if j >= 1 && ch[j-1].Clean && !ch[j].Clean {
+								r.Count("chain_subscription_made_after_a_clean_predecessor_restored_at_next_persistent_reconnect", 1)
+							}
+						}
+					case state[j] == absent && got && allEarlierDown:
+						bad("discarded-subscription-still-delivered", "delivered", map[string]interface{}{"filter": filt(j), "subscribed_by_connection": j, "payload": pls[j]})
+					case state[j] == absent && got:
+						r.Count("chain_discarded_filter_delivered_while_an_earlier_connection_is_not_torn_down(not judged)", 1)
+					case state[j] == absent && allEarlierDown:
+						r.Count("chain_discarded_filter_silent", 1)
+					case state[j] == absent:
+						r.Count("chain_discarded_filter_silent_while_an_earlier_connection_is_not_torn_down", 1)
+					case got:
+						r.Count("chain_filter_of_clean_predecessor_delivered_to_persistent_successor(not judged)", 1)
+					default:
+						r.Count("chain_filter_of_clean_predecessor_silent_for_persistent_successor(not judged)", 1)
+					}
+				}
+			case "watchdog":
+				inc("watchdog: PINGRESP")
+				return false
+			default:
+				bad("current-connection-deregistered-or-disconnected", "connection-closed-by-broker", map[string]interface{}{"at": "PINGREQ barrier", "state": st})
+			}
+		}
+		if len(symptoms) > 0 {
+			emit(k, when)
+			return false
+		}
+		r.Count("chain_connections_judged", 1)
+		if k >= 2 {
+			r.Count("chain_third_or_later_connection_judged", 1)
+		}
+		step("#%d: judged (%s): books and deliveries as the property demands", k, when)
+		return true
+	}
+
+	for k := 0; k < n; k++ {
+		jit()
+		c, l, err := relay.dial(cid)
+		if err != nil {
+			inc("dial: " + err.Error())
+			return
+		}
+		conns[k], links[k] = c, l
+		cur = k
+		if rc, st := c.connect(ch[k].Clean, 0); st == "watchdog" {
+			inc("watchdog: CONNACK")
+			return
+		} else if st != "ok" || rc != 0 {
+			bad("connection-refused", "connect", map[string]interface{}{"state": st, "rc": rc})
+			emit(k, "CONNECT")
+			return
+		}
+		switch {
+		case ch[k].Clean:
+			for j := range state {
+				state[j] = absent
+			}
+		case k > 0 && ch[k-1].Clean:
+			for j := range state {
+				if state[j] == present {
+					state[j] = open
+				}
+			}
+		}
+		step("#%d: CONNECT clean=%v accepted", k, ch[k].Clean)
+		sup := k > 0 && ch[k-1].Next == "takeover"
+		if sup && ch[k-1].Point == 1 && !teardown(k-1, ch[k-1].End, true) {
+			return
+		}
+		if st := c.subscribe([]string{filt(k)}, []byte{1}); st == "watchdog" {
+			inc("watchdog: SUBACK")
+			return
+		} else if st != "ok" {
+			bad("current-connection-deregistered-or-disconnected", "connection-closed-by-broker", map[string]interface{}{"at": "SUBSCRIBE", "state": st})
+			emit(k, "SUBSCRIBE")
+			return
+		}
+		state[k] = present
+		step("#%d: SUBSCRIBE %s", k, filt(k))
+		if sup && ch[k-1].Point == 2 && !teardown(k-1, ch[k-1].End, true) {
+			return
+		}
+		if !judge(k, "established") {
+			return
+		}
+		if sup && ch[k-1].Point == 3 {
+			if !teardown(k-1, ch[k-1].End, true) {
+				return
+			}
+			if !judge(k, "after the teardown of the connection it superseded") {
+				return
+			}
+		}
+		if k >= 2 && ch[k-2].Next == "takeover" && ch[k-2].Point == 6 && !down[k-2] && down[k-1] {
+			step("#%d: superseded long ago, its end comes only now, after the end of its successor #%d and the reconnect #%d", k-2, k-1, k)
+			if !teardown(k-2, ch[k-2].End, true) {
+				return
+			}
+			r.Count("chain_superseded_torn_down_after_successors_end_and_next_reconnect", 1)
+			if !lateCheck() {
+				return
+			}
+			if !judge(k, "after the late teardown of the connection superseded by its predecessor") {
+				return
+			}
+		}
+		if k == n-1 {
+			break
+		}
+		// the connection ends (or is taken over) only after its session has been handed to storage
+		if !rb.storesQuiesced() {
+			inc("watchdog: session store")
+			return
+		}
+		if !ch[k].Clean && ch[k].Next != "takeover" {
+			tp, ok := rb.persistedTopics(cid)
+			for j := 0; j <= k; j++ {
+				if state[j] == present && (!ok || tp[filt(j)] != 1) {
+					r.Count("persisted_copy_stale_after_all_stores_finished", 1)
+					bad("persisted-session-stale-after-all-stores-finished", "", map[string]interface{}{"persisted_topics": tp, "persisted_copy_exists": ok, "live_session_has": filt(j)})
+					emit(k, "before its end")
+					return
+				}
+			}
+		}
+		switch ch[k].Next {
+		case "disconnect":
+			if !teardown(k, "disconnect", false) {
+				return
+			}
+		case "drop":
+			c.close()
+			step("#%d: client vanished silently", k)
+			if !teardown(k, "drop", false) {
+				return
+			}
+		case "takeover":
+			if ch[k].End == "drop" {
+				c.close()
+				step("#%d: client vanished silently, the broker is not told", k)
+			}
+			step("#%d: still open for the broker when the next CONNECT arrives", k)
+		}
+	}
+	if first && n == 3 && ch[0].Clean && !ch[1].Clean && !ch[2].Clean && ch[0].Next == "takeover" && ch[1].Next == "drop" {
 		r.Sample(map[string]interface{}{"scenario": s, "steps": steps})
 	}
 }
